@@ -103,7 +103,14 @@ def genNum (Γ : Ctx) : Nat → Gen Ast
     | 20 => do pure (.call (← genFn Γ d) (← genNum Γ d))
     | 21 => do pure (.and_ (← genNum Γ d) (← genNum Γ d))
     | 22 => do pure (.or_ (← genNum Γ d) (← genNum Γ d))
-    | 23 => do pure (.paren (← genNum Γ d))
+    | 23 => do
+      if ← chance 1 2 then pure (.paren (← genNum Γ d)) else do
+        -- reducers: `set sum f`, `set max f`, `set min f`
+        let op ← pick [ArrOp.sum, .sum, .max, .min]
+        if ← chance 2 3 then pure (.opDot op (← genSet Γ d) (← genNum (Γ.bind "." .num) d))
+        else do
+          let x ← pick numNames
+          pure (.opFn op (← genSet Γ d) (.ident x) (← genNum (Γ.bind x .num) d))
     | 24 => do
       -- a closure that captures the current bindings, applied after a shadowing re-binding
       let vars := Γ.ofTy .num
@@ -185,9 +192,14 @@ def genArr (Γ : Ctx) : Nat → Gen Ast
 def genTup (Γ : Ctx) : Nat → Gen Ast
   | 0 => do pure (tupOf [("a", .num (← rand 6)), ("b", .num (← rand 6))])
   | d + 1 => do
-    match ← rand 4 with
+    match ← rand 6 with
     | 0 => do pure (tupOf [("b", ← genNum Γ d), ("a", ← genNum Γ d)])
     | 1 => do pure (condOf [((← genBool Γ d), (← genTup Γ d)), (.ident "_", ← genTup Γ d)])
+    | 2 => do
+      if ← chance 1 2 then pure (.opDot .tupmap (← genTup Γ d) (← genNum (Γ.bind "." .num) d))
+      else do
+        let x ← pick numNames
+        pure (.opFn .tupmap (← genTup Γ d) (.ident x) (← genNum (Γ.bind x .num) d))
     | _ => do pure (tupOf [("a", ← genNum Γ d), ("b", ← genNum Γ d)])
 def genFn (Γ : Ctx) : Nat → Gen Ast
   | 0 => do
@@ -419,9 +431,165 @@ def applyAt (t : Ast) (fs : List (Ast → Option Ast)) : Gen (Option (List Ast))
     let k ← rand c
     pure (some (fs.map fun f => rewriteAt f t k))
 
+/-! ## nested default binders: an outer `.` is in scope where an inner `lhs op f` binds `.` again -/
+
+/-- a body over the name `.` (a number) that really uses it -/
+def genDotBody (Γ : Ctx) : Gen Ast := do
+  let Γ' := Γ.bind "." .num
+  match ← rand 5 with
+  | 0 => pure (.ident ".")
+  | 1 => pure (.neg (.ident "."))
+  | 2 => do pure (.bin .add (.bin .mul (.ident ".") (.num ((← rand 3) + 1))) (← genNum Γ' 0))
+  | 3 => do pure (.bin .sub (← genNum Γ' 1) (.ident "."))
+  | _ => do pure (.bin .add (.ident ".") (← genNum Γ' 1))
+
+/-- `L op f` where `L` is built from the outer `.` (of type `dotTy`) and `f` uses the inner `.` -/
+def genInner (Γ : Ctx) (dotTy : Ty) : Gen (Ast × Ty) := do
+  let dot := Ast.ident "."
+  match dotTy with
+  | .arrNum => do pure (.opDot .seq dot (← genDotBody Γ), .arrNum)
+  | .tup => do pure (.opDot .tupmap dot (← genDotBody Γ), .tup)
+  | _ => do
+    let k ← rand 4
+    let l ← pick [dot, dot, dot, .opDot .where_ dot (.bin .gt (.ident ".") (.num k)),
+                  .opDot .darrow dot (.bin .add (.ident ".") (.num k))]
+    match ← rand 8 with
+    | 0 => do
+      let op ← pick [BinOp.lt, .le, .gt, .ge, .ne]
+      pure (.opDot .where_ l (.bin op (.ident ".") (← genNum (Γ.bind "." .num) 0)), .setNum)
+    | 1 => do pure (.opDot .darrow l (← genDotBody Γ), .setNum)
+    | 2 | 3 | 4 => do
+      -- orderby with an injective key
+      let c ← rand 4
+      let key ← pick [Ast.ident ".", .neg (.ident "."), .bin .add (.bin .mul (.ident ".") (.num 2)) (.num c),
+                      .bin .sub (.num c) (.ident ".")]
+      pure (.opDot .orderby l key, .arrNum)
+    | 5 => do pure (.opDot .sum l (← genDotBody Γ), .num)
+    | 6 => do pure (.opDot .max l (← genDotBody Γ), .num)
+    | _ => do pure (.opDot .min l (← genDotBody Γ), .num)
+
+/-- turn every default binder into an explicit one with a fresh name, outermost first -/
+def explicitAll : Ast → Nat → Ast
+  | t, 0 => t
+  | t, n + 1 =>
+    if countApp dotSame t = 0 then t
+    else explicitAll (rewriteAt (dotFresh s!"d{n}") t 0) n
+
+def genNested : Gen Ast := do
+  let dotTy ← pick [Ty.setNum, .setNum, .setNum, .arrNum, .tup]
+  let value : Gen Ast := match dotTy with
+    | .arrNum => do pure (arrOf (← genList ((← rand 3) + 1) (do pure (.num (← rand 6)))))
+    | .tup => genTup [] 0
+    | _ => do pure (setOf (← genList ((← rand 3) + 1) (do pure (.num (← rand 7)))))
+  let (inner, ty) ← genInner [(".", dotTy)] dotTy
+  let v1 ← value
+  let v2 ← value
+  let core ← match ← rand 7 with
+    | 0 => pure (Ast.opDot .arrow v1 inner)
+    | 1 => pure (Ast.opDot .darrow (setOf [v1, v2]) inner)
+    | 2 => pure (Ast.opDot .seq (arrOf [v1, v2]) inner)
+    | 3 => pure (Ast.opDot .where_ (setOf [v1, v2]) (if ty == .num then .bin .gt inner (.num 2) else inner))
+    | 4 => pure (Ast.opFn .arrow v1 (.ident ".") inner)
+    | 5 => pure (Ast.let_ (.ident ".") v1 inner)
+    | _ => do
+      -- two levels: the outer `.` is a set of sets
+      pure (Ast.opDot .arrow (setOf [v1, v2]) (.opDot .darrow (.ident ".") inner))
+  match ← rand 4 with
+  | 0 => do
+    let x ← pick numNames
+    pure (.let_ (.ident x) (.num (← rand 6)) core)
+  | 1 => pure (arrOf [core, .num 0])
+  | _ => pure core
+
+/-! ## aliases: a name bound to a bare identifier, the source name re-bound before the alias is used -/
+
+/-- the continuation of an alias binding `y = x`: re-bind `x` in one of the ways the language offers, then use `y` -/
+def genShadowUse (x y : String) (fnAlias : Bool) : Gen Ast := do
+  let b : Ast ← if fnAlias then pure (.fn (.ident "q") (.num 0)) else do pure (.num ((← rand 4) + 6))
+  let use ← if fnAlias then pure (Ast.call (.ident y) (.num 1)) else
+    pick [Ast.ident y, .bin .add (.ident y) (.ident x), arrOf [.ident x, .ident y], .bin .mul (.ident y) (.num 2),
+          .bin .sub (.ident x) (.ident y)]
+  let use := if fnAlias then use else use
+  match ← rand (if fnAlias then 3 else 8) with
+  | 0 => pure (.let_ (.ident x) b use)
+  | 1 => pure (.call (.fn (.ident x) use) b)
+  | 2 => pure (.opFn .arrow b (.ident x) use)
+  | 3 => pure (.opFn .seq (arrOf [.num 5, .num 6]) (.ident x) use)
+  | 4 => pure (.opFn .darrow (setOf [.num 5, .num 6]) (.ident x) use)
+  | 5 => pure (.let_ (patArr [.ident x, .ident "q"]) (arrOf [b, b]) use)
+  | 6 => pure (.let_ (.ident "k") (.fn (.ident x) use) (.call (.ident "k") b))
+  | _ => pure (.opFn .where_ (setOf [.num 5, .num 6]) (.ident x) (.bin .lt (.ident y) (.ident x)))
+
+/-- `[let y = x; K,  x -> \y K,  (\y K)(x)]` under a binding of `x` -/
+def genAlias : Gen (List Ast) := do
+  let dotCase ← chance 1 6
+  let fnAlias ← chance 1 6
+  if dotCase then
+    -- the aliased name is the default binder `.`, re-bound by an inner default binder
+    let y ← pick numNames
+    let a ← genNum [] 1
+    let inner ← pick [Ast.opDot .seq (arrOf [.num 5, .num 6]) (.bin .add (.ident y) (.ident ".")),
+                      .opDot .darrow (setOf [.num 5, .num 6]) (.ident y),
+                      .opDot .arrow (.num 9) (arrOf [.ident y, .ident "."]),
+                      .opDot .sum (setOf [.num 5, .num 6]) (.bin .sub (.ident ".") (.ident y))]
+    let forms := [Ast.let_ (.ident y) (.ident ".") inner, .opFn .arrow (.ident ".") (.ident y) inner,
+                  .call (.fn (.ident y) inner) (.ident ".")]
+    pure (forms.map fun f => Ast.opDot .arrow a f)
+  else
+    let x ← pick (if fnAlias then fnNames else numNames)
+    let y ← pick ((if fnAlias then fnNames else numNames).filter (· != x))
+    let a ← if fnAlias then (do pure (Ast.fn (.ident "z") (.bin .add (.ident "z") (.num ((← rand 5) + 1))))) else genNum [] 1
+    let k ← genShadowUse x y fnAlias
+    let forms := [Ast.let_ (.ident y) (.ident x) k, .opFn .arrow (.ident x) (.ident y) k, .call (.fn (.ident y) k) (.ident x)]
+    let outer ← rand 3
+    pure (forms.map fun f => match outer with
+      | 0 => Ast.opFn .arrow a (.ident x) f
+      | _ => Ast.let_ (.ident x) a f)
+
+/-! ## default-binder forms outside the Lean model (mean, median, rank, attribute access): the default-binder
+text, the explicit `\v` text and the fully explicit text must agree (harness op `agree`) -/
+
+structure InnerT where
+  op : String
+  body : String → String      -- the body over the bound name
+  val : Nat → String          -- a value for the attribute `a` (two variants)
+
+instance : Inhabited InnerT := ⟨⟨"=>", fun n => n, fun _ => "{1}"⟩⟩
+
+def innerTs : List InnerT :=
+  let sets (i : Nat) := if i == 0 then "{3, 1, 2}" else "{4, 6}"
+  let arrs (i : Nat) := if i == 0 then "[3, 1, 2]" else "[4, 6]"
+  let tups (i : Nat) := if i == 0 then "(p: 3, q: 1)" else "(p: 4, q: 6)"
+  let attr (n : String) := if n == "." then ".x" else n ++ ".x"
+  let rels (i : Nat) := if i == 0 then "{(x: 3), (x: 1)}" else "{(x: 4), (x: 6), (x: 5)}"
+  [ ⟨"where", fun n => s!"{n} > 1", sets⟩, ⟨"=>", fun n => s!"{n} * 2 + 1", sets⟩, ⟨"orderby", fun n => s!"-{n}", sets⟩,
+    ⟨"orderby", fun n => s!"{n}", sets⟩, ⟨"sum", fun n => s!"{n} * 2", sets⟩, ⟨"max", fun n => s!"-{n}", sets⟩,
+    ⟨"min", fun n => s!"{n} + 1", sets⟩, ⟨"mean", fun n => s!"{n} * 2", sets⟩, ⟨"median", fun n => s!"{n}", sets⟩,
+    ⟨">>", fun n => s!"{n} + 1", arrs⟩, ⟨":>", fun n => s!"{n} * 3", tups⟩,
+    ⟨"rank", fun n => s!"(r: {attr n})", rels⟩, ⟨"orderby", fun n => s!"-{attr n}", rels⟩,
+    ⟨"=>", fun n => s!"({n} -> . + 1)", sets⟩ ]
+
+def genAgree (id : String) : Gen Case := do
+  let t ← pick innerTs
+  let dflt := s!".a {t.op} {t.body "."}"
+  let expl := s!".a {t.op} \\v {t.body "v"}"
+  let full := s!"o.a {t.op} \\v {t.body "v"}"
+  let (a, b, c) ← match ← rand 5 with
+    | 0 => pure (s!"(a: {t.val 0}) -> ({dflt})", s!"(a: {t.val 0}) -> ({expl})", s!"(a: {t.val 0}) -> \\o ({full})")
+    | 1 => pure (s!"\{(a: {t.val 0}), (a: {t.val 1})} => ({dflt})", s!"\{(a: {t.val 0}), (a: {t.val 1})} => ({expl})",
+                 s!"\{(a: {t.val 0}), (a: {t.val 1})} => \\o ({full})")
+    | 2 => pure (s!"[(a: {t.val 0}), (a: {t.val 1})] >> ({dflt})", s!"[(a: {t.val 0}), (a: {t.val 1})] >> ({expl})",
+                 s!"[(a: {t.val 0}), (a: {t.val 1})] >> \\o ({full})")
+    | 3 => pure (s!"\{(a: {t.val 0}), (a: {t.val 1})} where ({dflt})", s!"\{(a: {t.val 0}), (a: {t.val 1})} where ({expl})",
+                 s!"\{(a: {t.val 0}), (a: {t.val 1})} where \\o ({full})")
+    | _ => pure (s!"let . = (a: {t.val 1}); {dflt}", s!"let . = (a: {t.val 1}); {expl}",
+                 s!"let o = (a: {t.val 1}); {full}")
+  pure { id := id, cls := "good", kind := "agree", stratum := s!"agree/{t.op}", model := "agree", spec := "agree",
+         payload := [a, b, c] }
+
 def kinds : List String :=
   ["let", "let", "sugar", "dot", "dot", "paren", "paren", "parenfn", "trivia", "subst", "subst", "short", "short",
-   "scope", "gap"]
+   "scope", "gap", "nested", "nested", "nested", "alias", "alias", "alias", "agree"]
 
 /-- is the rewrite kind applicable somewhere in `t`? -/
 def applicable (kind : String) (t : Ast) : Bool :=
@@ -499,6 +667,18 @@ def genCase (idx : Nat) (thorough : Bool) : Gen Case := do
     match ← applyAt t [same, ins] with
     | some [a, b] => pure (mkMeta id s!"short-circuit/{shape}" [← rend a, ← rend b])
     | _ => fallback
+  | "nested" =>
+    let p ← genNested
+    let e := explicitAll p 8
+    let c := countApp dotSame p
+    let one ← do
+      let fresh ← pick ["v1", "arg", "it"]
+      pure (rewriteAt (dotFresh fresh) p (← rand (max c 1)))
+    pure (mkMeta id "nested-dot" [← rend p, ← rend e, ← rend one])
+  | "alias" =>
+    let vs ← genAlias
+    pure (mkMeta id "alias" (← vs.mapM rend))
+  | "agree" => genAgree id
   | "scope" =>
     -- closures see the bindings at their creation: a later re-binding of a captured name is invisible
     let x ← pick numNames
